@@ -71,7 +71,12 @@ inline Plan Gen(uint64_t seed)
             s += " " + op; held.push_back(write ? 'w' : 'r');
             if (wl.pct(60)) s += " Y";
          }
-         else if (k < 90) {s += std::string(" ") + held.back(); held.pop_back();}
+         else if (k < 90)
+         {
+            // usually LIFO; sometimes any held entry (e.g. the write lock released while a recursive read lock is kept: a downgrade)
+            const size_t at = wl.pct(70) ? (held.size()-1) : wl.below((uint32_t) held.size());
+            s += std::string(" ") + held[at]; held.erase(held.begin()+(long) at);
+         }
          else if (k < 95) s += " Y";
          else s += wl.oneIn(2) ? " ur" : " uw";   // deliberately unmatched unlock (only meaningful when nothing of that mode is held; the interpreter decides)
       }
